@@ -17,13 +17,13 @@ import (
 // of an obligation and evaluates the contract clause concretely.  It is injected with `go test -overlay`
 // (nothing is written under /repo).  The test FAILS when the real code violates the clause.
 type replayEntry struct {
-	Match   string `json:"match"`   // regexp on the obligation's base name
-	Dir     string `json:"dir"`     // package directory relative to /repo ("." for the root package)
-	File    string `json:"file"`    // test file relative to /verif/replay (or use Files)
+	Match   string   `json:"match"` // regexp on the obligation's base name
+	Dir     string   `json:"dir"`   // package directory relative to /repo ("." for the root package)
+	File    string   `json:"file"`  // test file relative to /verif/replay (or use Files)
 	Files   []string `json:"files"` // glob patterns relative to /verif/replay: all matching files are injected together
-	Run     string `json:"run"`     // -run pattern
-	Skip    string `json:"skip"`    // -skip pattern (tests that fail on the unchanged tree for a listed known finding)
-	Comment string `json:"comment"`
+	Run     string   `json:"run"`   // -run pattern
+	Skip    string   `json:"skip"`  // -skip pattern (tests that fail on the unchanged tree for a listed known finding)
+	Comment string   `json:"comment"`
 }
 
 type replayer struct {
